@@ -61,7 +61,7 @@ class SQLRepo:
                     self._session.delete(prop_link)
                     if delete_prop:
                         self._session.delete(prop_link.prop)
-                    self._session.commit()
+                    self._flush_and_expire()
 
                 for note_tags in [
                     sql_note.areas,
@@ -72,7 +72,7 @@ class SQLRepo:
                     for tag in note_tags:  # type: ignore[attr-defined]
                         if len(tag.notes) == 1:
                             self._session.delete(tag)
-                            self._session.commit()
+                            self._flush_and_expire()
 
                 self._session.delete(sql_note)
 
@@ -83,6 +83,16 @@ class SQLRepo:
             emsg = "Cannot delete zorg file since it does not exist."
             _LOGGER.debug(emsg, path=filename)
             return None
+
+    def _flush_and_expire(self) -> None:
+        """Makes pending deletes visible to later relationship look-ups.
+
+        Unlike a commit, this keeps the removal of a page inside the
+        caller's transaction: an interruption cannot leave a page half
+        removed in the database.
+        """
+        self._session.flush()
+        self._session.expire_all()
 
     def get_notes_by_query(self, query: Optional[WhereOrFilter]) -> list[Note]:
         """Get note(s) from DB by using a query."""
